@@ -2,6 +2,7 @@ import CedarVerif.Cedar.SymCC
 import CedarVerif.Cedar.SymCompile
 import CedarVerif.Lemmas.SymCompile
 import CedarVerif.Lemmas.SymCType
+import CedarVerif.Lemmas.SymCSet
 import CedarVerif.Thm.C01
 /-
 C18 — Symbolic compilation agrees with evaluation on concrete (literal) environments.
@@ -58,14 +59,35 @@ terms and record term types, and the `Record` arm of `Term::from_value` for a fl
     and carry primitive values (`FlatConforms`, implied by schema conformance), so `hctx` is discharged for conformant
     requests.
 
-STILL NOT PROVED, NOT MODELLED: the compiler outside `SFrag2` (attributes / `has` on entities, `in`, tags, SETS — set
-literal terms, `contains/containsAll/containsAny/isEmpty`, set `==` with the factory's `set_member/set_subset/
-set_intersects` folding: not started, there is no `SFrag3` —, record literals, nested-record / set-typed context
-attributes, extension functions), symccopt/compiler.rs'
+  * FOURTH ROUND — SETS (`SFrag3` = `SFrag2` + set literals `[e, …]`, `contains containsAll containsAny isEmpty`, `==` on
+    sets): MODELLED and CHECKED AGAINST RUST, general theorem STATED, NOT PROVED.  Model: `TermType.set`, set terms as cons
+    cells `setNil ty` / `setCons t rest` (`Term::Set { elts : BTreeSet, elts_ty }`; the BTreeSet invariant "strictly
+    sorted" is the separate predicate `setWF`, the canonical form is built by `setOf` = sorted duplicate-free insertion
+    with `termLt`, the derived `Ord for Term` on two prims of one kind), factory `set_of set_member set_subset set_inter
+    set_is_empty set_intersects any_none if_all_some` (every branch, also the `App` ones), `compile_set` (empty literal =
+    `UnsupportedFeature`, element types must agree, an erroring element makes the whole set `none`), the `isEmpty` arm of
+    `compile_app1`, the `contains / containsAll / containsAny` arms of `compile_app2` (`a.containsAll(b)` =
+    `set_subset(b, a)`), `compile` on `.set` (first error wins).  PROVED: `set_canonical_members` (the canonical form has
+    exactly the members of the element list and the declared type), `set_member_folds`, `set_subset_folds`,
+    `set_intersects_folds`, `set_is_empty_folds` (the literal folding of `set_member` / `set_subset` / `set_intersects` /
+    `set_is_empty` on canonical sets is membership in / inclusion / overlap / emptiness of the ORIGINAL element lists —
+    duplicates and order are irrelevant; these are the evaluator's `Value.elem / subset / any-elem / isEmpty` shapes); the closed examples (`[1,2,2,1].contains(2)`, `[3,1,2] == [2,3,1,1]`,
+    `[1, MAX+1].contains(1)` ↦ `none`, containsAll/containsAny both ways, the rejections).  NOT PROVED:
+    `CompileCorrectFragment3` (a `def … : Prop`, the full statement in the shape of `compile_correct_fragment2`), in
+    particular nothing general about set `==` (`factory::eq` compares the canonical forms structurally; needs extensionality
+    of the canonical form, i.e. that `termLt` is a strict total order on literals of one kind), about `if_all_some` /
+    `compile_set` (error propagation is shown on examples only), and the factory lemmas are not yet connected to
+    `evaluate` through `compile`.  `ctype`, `compile_rejects_iff`,
+    `compile_typeOf_ctype`, `compilePolicy_discharged`, `vc_skeleton_correct_fragment` REMAIN ON `SFrag2` (they still hold
+    for the extended `compile`, which is the same function).
+
+STILL NOT PROVED, NOT MODELLED: the compiler outside `SFrag3` (attributes / `has` on entities, `in`, tags, record literals,
+nested-record / set-typed context attributes, extension functions), symccopt/compiler.rs'
 footprint, the rest of the symbolizer (`SymEnv::from_concrete_env`) and the enforcer.  There the contract is *sampled* by
 the differential run of `./check C18` (harness/src/c18.rs: real `SymEnv::from_concrete_env`, both compilers, the real
 evaluator and authorizer); the fragment itself is additionally checked line by line against the Rust compiler by stream
-`c18symc` (schema with a context of required and optional primitive attributes, requests supplying / omitting them).
+`c18symc` (schema with a context of required and optional primitive attributes, requests supplying / omitting them;
+fourth round: set literals of longs / strings / users with duplicates, `contains*`, `isEmpty`, set `==`, erroring elements).
 -/
 namespace Cedar.C18
 open Cedar Cedar.SymCC
@@ -538,6 +560,54 @@ theorem compile_correct_fragment (req : Request) (es : Entities) (senv : SlotEnv
   · rw [hev]; exact ⟨ty, rfl⟩
   · exact absurd hck.1 (by simp [Term.isRecord])
 
+/-! ### THIRD fragment (`SFrag3`): set literals, `contains containsAll containsAny isEmpty`, set `==` — MODELLED and checked
+    against Rust by stream c18symc; the general correctness statement is STATED (`CompileCorrectFragment3`), NOT proved;
+    proved: the canonical form keeps exactly the members, and `set_member` / `set_subset` / `set_intersects` /
+    `set_is_empty` fold on it to list membership / inclusion / overlap / emptiness of the ORIGINAL element lists
+    (`set_canonical_members`, `set_member_folds`, `set_subset_folds`, `set_intersects_folds`, `set_is_empty_folds`). -/
+
+/-- the FULL statement for the third fragment (same shape as `compile_correct_fragment2`, plus the set case: the folded
+    term is `some` of a canonical literal set term `setOf ts ty` whose members are, when the value is a set of primitives,
+    exactly the literals of those primitives — "equal up to the canonical form").  NOT PROVED. -/
+def CompileCorrectFragment3 : Prop :=
+  ∀ (req : Request) (es : Entities) (senv : SlotEnv) (etys : List (EntityType × Option (List String))) (ctxT : Term),
+    (ctxT.typeOf.isRecordType = true → CtxOK req.context ctxT) →
+    ∀ (e : Expr), SFrag3 e → ∀ (t : Term), compile (litEnv2 req etys ctxT) e = .ok t →
+      match evaluate req es senv e with
+      | .ok v => (∃ p, v = .prim p ∧ t = .some (.prim (litPrim p))) ∨ (v = .record req.context ∧ t = .some ctxT) ∨
+                 (∃ vs ts ty, v = .set vs ∧ t = .some (setOf ts ty) ∧
+                    ∀ ps : List Prim, vs = ps.map Value.prim → ∀ y, y ∈ ts ↔ ∃ p, p ∈ ps ∧ y = .prim (litPrim p))
+      | .error _ => ∃ ty, t = .none ty
+
+/-- `factory::set_of` (collecting into the BTreeSet, model: sorted duplicate-free insertion) keeps exactly the members -/
+theorem set_canonical_members (ts : List Term) (ty : TermType) (y : Term) :
+    (y ∈ setElts (setOf ts ty) ↔ y ∈ ts) ∧ (setOf ts ty).typeOf = .set ty :=
+  ⟨setOf_mem ts ty y, setOf_typeOf ts ty⟩
+
+/-- `factory::set_member` on literals folds to membership in the ORIGINAL element list (duplicates / order irrelevant) -/
+theorem set_member_folds (x : Term) (ts : List Term) (ty : TermType) (hx : x.isLiteral = true)
+    (hts : ∀ y, y ∈ ts → y.isLiteral = true) :
+    setMember x (setOf ts ty) = .prim (.bool (ts.contains x)) :=
+  setMember_setOf x ts ty hx hts
+
+/-- `factory::set_subset` on two canonical literal sets (what `b.containsAll(a)` compiles to) folds to "every element of the
+    first list occurs in the second" — the evaluator's `Value.subset` on the element lists -/
+theorem set_subset_folds (as bs : List Term) (ty : TermType)
+    (has : ∀ y, y ∈ as → y.isLiteral = true) (hbs : ∀ y, y ∈ bs → y.isLiteral = true) :
+    setSubset (setOf as ty) (setOf bs ty) = .prim (.bool (as.all (fun x => bs.contains x))) :=
+  setSubset_setOf as bs ty has hbs
+
+/-- `factory::set_intersects` (= `not(set_is_empty(set_inter …))`, what `a.containsAny(b)` compiles to) on two canonical
+    literal sets folds to "some element of the first list occurs in the second" -/
+theorem set_intersects_folds (as bs : List Term) (ty : TermType)
+    (has : ∀ y, y ∈ as → y.isLiteral = true) (hbs : ∀ y, y ∈ bs → y.isLiteral = true) :
+    setIntersects (setOf as ty) (setOf bs ty) = .prim (.bool (as.any (fun x => bs.contains x))) :=
+  setIntersects_setOf as bs ty has hbs
+
+/-- `factory::set_is_empty` on the canonical set folds to emptiness of the element list -/
+theorem set_is_empty_folds (ts : List Term) (ty : TermType) : setIsEmpty (setOf ts ty) = .prim (.bool ts.isEmpty) :=
+  setIsEmpty_setOf ts ty
+
 /-- `CompiledPolicy::compile_with_custom_symenv` restricted to what the skeleton reads: the compiled condition must be a
     term of type `option bool` (compiler.rs' postcondition for a boolean condition) and is read as a constant -/
 def compilePolicyReal (env : SymEnvLit) (p : Policy) : Option CPolicy :=
@@ -803,6 +873,50 @@ example : compilePolicyReal (litEnv exReq exEtys) pOvf = some { effect := .forbi
 example : compilePoliciesReal (litEnv exReq exEtys) [pIf, pOvf]
     = some [{ effect := .permit, term := some true }, { effect := .forbid, term := none }] := by decide +kernel
 example : pOvf.outcome exReq exEs = .err := by decide +kernel
+
+/-! ### third fragment: sets -/
+
+example : setSubset (setOf [.prim (.bitvec 2), .prim (.bitvec 2)] .bitvec64) (setOf [.prim (.bitvec 1), .prim (.bitvec 2)] .bitvec64) = tTrue := by
+  decide +kernel
+example : setIntersects (setOf [.prim (.bitvec 3)] .bitvec64) (setOf [.prim (.bitvec 1), .prim (.bitvec 2)] .bitvec64) = tFalse := by
+  decide +kernel
+example : setMember (.prim (.bitvec 2)) (setOf [.prim (.bitvec 1), .prim (.bitvec 2), .prim (.bitvec 2)] .bitvec64) = tTrue := by
+  decide +kernel
+
+def exSet (is : List Int) : Expr := .set (is.map (fun i => .lit (.int i)))
+def exMax1 : Expr := .binaryApp .add (.lit (.int 9223372036854775807)) (.lit (.int 1))
+
+example : SFrag3 (.binaryApp .contains (exSet [1, 2, 2, 1]) (.lit (.int 2))) := inFrag3_sound _ (by decide +kernel)
+-- duplicates and order disappear in the canonical form, which is well-formed (strictly sorted)
+example : compile (litEnv exReq exEtys) (exSet [2, 1, 2])
+    = .ok (.some (.setCons (.prim (.bitvec 1)) (.setCons (.prim (.bitvec 2)) (.setNil .bitvec64)))) := by decide +kernel
+example : setWF (.setCons (.prim (.bitvec 1)) (.setCons (.prim (.bitvec 2)) (.setNil .bitvec64))) = true := by decide +kernel
+example : compile (litEnv exReq exEtys) (.binaryApp .contains (exSet [1, 2, 2, 1]) (.lit (.int 2))) = .ok (.some tTrue) := by
+  decide +kernel
+-- an erroring element makes the whole set `none` (`if_all_some`)
+example : compile (litEnv exReq exEtys) (.binaryApp .contains (.set [.lit (.int 1), exMax1]) (.lit (.int 1)))
+    = .ok (.none .bool) := by decide +kernel
+example : evaluate exReq exEs [] (.binaryApp .contains (.set [.lit (.int 1), exMax1]) (.lit (.int 1))) = .error .overflow := by
+  rfl
+example : compile (litEnv exReq exEtys) (.binaryApp .eq (exSet [3, 1, 2]) (exSet [2, 3, 1, 1])) = .ok (.some tTrue) := by
+  decide +kernel
+example : compile (litEnv exReq exEtys) (.binaryApp .eq (exSet [-1, 1]) (exSet [1])) = .ok (.some tFalse) := by decide +kernel
+-- `a.containsAll(b)` is `set_subset(b, a)`
+example : compile (litEnv exReq exEtys) (.binaryApp .containsAll (exSet [1, 2]) (exSet [2, 2])) = .ok (.some tTrue) := by
+  decide +kernel
+example : compile (litEnv exReq exEtys) (.binaryApp .containsAll (exSet [2, 2]) (exSet [1, 2])) = .ok (.some tFalse) := by
+  decide +kernel
+example : compile (litEnv exReq exEtys) (.binaryApp .containsAny (exSet [1, 2]) (exSet [3, 2])) = .ok (.some tTrue) := by
+  decide +kernel
+example : compile (litEnv exReq exEtys) (.binaryApp .containsAny (exSet [1, 2]) (exSet [3, 4])) = .ok (.some tFalse) := by
+  decide +kernel
+example : compile (litEnv exReq exEtys) (.unaryApp .isEmpty (exSet [1])) = .ok (.some tFalse) := by decide +kernel
+-- rejected: the empty set literal (`UnsupportedFeature`), mixed element types, `contains` with another element type
+example : compile (litEnv exReq exEtys) (.set []) = .error .unsupported := by decide +kernel
+example : compile (litEnv exReq exEtys) (.set [.lit (.int 1), .lit (.string "x")]) = .error .typeError := by decide +kernel
+example : compile (litEnv exReq exEtys) (.binaryApp .contains (exSet [1]) (.lit (.string "x"))) = .error .typeError := by
+  decide +kernel
+example : compile (litEnv exReq exEtys) (.unaryApp .isEmpty (.lit (.int 1))) = .error .typeError := by decide +kernel
 
 end FragmentExamples
 
